@@ -13,7 +13,7 @@ R13.2 no state leaks from a rejected line: every mutation of loop-carried state 
       the three accept gates.
 """
 from ..cfg import CFG
-from ..effects import Effects
+from ..effects import Effects, display_only_fields
 from ..facts import Broken, callee_name, span_loc
 from ..mirq import DefUse, operand_place
 from ..region import Region
@@ -102,6 +102,14 @@ def io_only_result(facts, term):
             if p.startswith("std::io::Error::") or p.startswith("std::io::error::Error::"):
                 return False, "%s constructs an io::Error itself" % n
     return True, ""
+
+
+def _tracked_mut(ty):
+    """True unless the type is a `&mut` to something whose mutation the effect summaries do not track"""
+    if ty["k"] != "ref" or not ty.get("mut"):
+        return True
+    s = ty["s"]
+    return any(s.endswith(x) for x in ("counters::AppCounters", "planes::Planes", "plane::Plane"))
 
 
 def run(facts, rep, tier):
@@ -208,6 +216,8 @@ def run(facts, rep, tier):
         t = reg.loop_body.blocks[bi]["term"]
         if t["k"] == "call" and t["callee"].get("name") == "next" and reg.helper is None:
             exempt_calls.add(bi)
+    display_only = display_only_fields(facts, reg.eff, "AppCounters")
+    rep.extra["display_only_fields"] = sorted(display_only)
     sites = []
     for bi in sorted(reg.blocks):
         blk = proc.blocks[bi]
@@ -221,8 +231,12 @@ def run(facts, rep, tier):
         t = blk["term"]
         if t["k"] == "call" and bi not in exempt_calls:
             e = reg.eff.of_call(t)
-            st = [x for x in e if x[0] in ("table", "btree") or (x[0] == "field" and x[1].split("::")[-1] in ("AppCounters", "Plane", "Planes"))]
+            st = [x for x in e if x[0] in ("table", "btree") or (x[0] == "field" and x[1].split("::")[-1] in ("AppCounters", "Plane", "Planes")
+                                                                  and not (x[1].split("::")[-1] == "AppCounters" and x[2] in display_only))]
             mut_arg = False
+            # a crate function whose `&mut` parameters are all crate state types is fully described by its effect summary
+            summarised = callee_name(t) in reg.eff.trans and all(
+                _tracked_mut(proc.locals[operand_place(a)["local"]]["ty"]) for a in t["args"] if operand_place(a) is not None)
             for a in t["args"]:
                 r = pdu.root(a)
                 pl = operand_place(a)
@@ -248,6 +262,8 @@ def run(facts, rep, tier):
                                 rb = pdu.root_place(d[3]["rv"]["place"])
                                 if rb[0] == "arg" or (rb[0] == "multi" and rb[1] in outside_defined):
                                     mut_arg = True
+            if summarised:
+                mut_arg = False
             if st or mut_arg:
                 sites.append((bi, "call %s (%s)" % (callee_name(t), "state effects" if st else "&mut of loop-carried state"), t.get("span")))
     n = 0
@@ -261,7 +277,7 @@ def run(facts, rep, tier):
                                 "%s can execute for a line that %s rejects: a rejected line leaves a trace in loop-carried state"
                                 % (what, g), span_loc(sp)))
     rep.sample({"rule": "R13.2", "mutation_sites": [w for _, w, _ in sites], "gates": list(gates)})
-    rep.instances("R13.2", n, floor=12, what="(state mutation site x gate) dominance facts")
+    rep.instances("R13.2", n, floor=9, what="(state mutation site x gate) dominance facts")
     rep.extra["loop"] = {"body": body.name, "header_bb": reg.header, "blocks": len(lblocks), "helper": reg.helper.name if reg.helper else None}
     rep.assumptions += [
         "std: BufRead::lines yields Err(InvalidData) for a line that is not valid UTF-8; BufRead::split yields Err only for I/O errors",
